@@ -177,7 +177,7 @@ func main() {
 		defer g.EndItem(t)
 		if r.Expired() {
 			t.Add("universes-not-run(time)", it.hi-it.lo)
-			r.Cap(fmt.Sprintf("time budget %v reached before all universes were enumerated", r.Budget))
+			r.Cap("time budget reached before all universes were enumerated (see universes_enumerated / universes_total)")
 			return
 		}
 		for ui := it.lo; ui < it.hi; ui++ {
